@@ -24,6 +24,13 @@ func installHook(plan [][]int, m Mode, h *Hist) (remove func()) {
 			h.Livelock.Store(fmt.Sprintf("the Scheduler Loop iterated %d times; at most 3*jobs+1+reports = %d iterations can do work: it is spinning", n, 3*h.J+1+int(h.NReports.Load())))
 			runtime.Goexit() // stops the loop goroutine; its deferred calls release Wait
 		}
+		if point == scheduler.VerifWorkerGot && h.cancelAtGot != nil {
+			// cancellation injected exactly when a worker holds a job it has not
+			// looked at yet (Case.CancelAtGot = ordinal of that moment)
+			if h.gotCount.Add(1) == h.cancelAtGotN {
+				h.cancelAtGot()
+			}
+		}
 		switch point {
 		case scheduler.VerifDispatched, scheduler.VerifResult:
 			h.hookOngoing.Store(int64(arg))
